@@ -42,8 +42,9 @@ func c01Check(c c01Case, st *stats.Run) error {
 	p := hx.ThePool()
 	plain := hx.PRG(c.PlainSeed, c.PlainLen)
 	var recs []age.Recipient
-	for _, r := range c.Recs {
-		recs = append(recs, p.Recipient(r))
+	for i, r := range c.Recs {
+		// the same key reaches the library through its constructor, its string form, a key file or its identity
+		recs = append(recs, p.RecipientVia(r, int(c.PlainSeed)+i))
 	}
 	if c.LongStanza > 0 {
 		long := p.Recipient(hx.RecSpec{Kind: "stub", Stub: &hx.StubSpec{Stanzas: []refage.Stanza{{Type: "example.com/long", Args: []string{"a", strings.Repeat("x", c.LongStanza)}, Body: hx.PRG(5, 20)}}}})
@@ -63,7 +64,7 @@ func c01Check(c c01Case, st *stats.Run) error {
 	}
 	nontrivial := len(c.Recs) >= 2 || len(c.Before) > 0 || (c.PlainLen > 0 && lenClass(c.PlainLen) != "len=other")
 	st.Case(nontrivial, stats.HashJSON(c), lenClass(c.PlainLen), chunkLabel(c.PlainLen), "mix="+hx.KindsOf(c.Recs),
-		fmt.Sprintf("armor=%v", c.Armor), fmt.Sprintf("before=%d", min(len(c.Before), 3)), segLabel(c.Segs, c.PlainLen), "delivery="+c.Delivery.Mode)
+		fmt.Sprintf("armor=%v", c.Armor), fmt.Sprintf("before=%d", min(len(c.Before), 3)), fmt.Sprintf("key-route=%d", c.PlainSeed%6), segLabel(c.Segs, c.PlainLen), "delivery="+c.Delivery.Mode)
 	if nontrivial {
 		st.Sample(hx.KindsOf(c.Recs)+"/"+lenClass(c.PlainLen), c)
 	}
@@ -100,7 +101,7 @@ func c01Check(c c01Case, st *stats.Run) error {
 		for i, f := range c.Before {
 			add(fmt.Sprintf("before%d:%s", i, f.Kind), foreignIdentity(p, f, &prompted))
 		}
-		matchID := p.Identity(r)
+		matchID := p.IdentityVia(r, int(c.PlainSeed)+j)
 		if c.EncSSH && r.Kind == "ed25519" && r.Idx <= 2 {
 			signer, _ := ssh.NewSignerFromKey(p.Ed[r.Idx])
 			eid, eerr := agessh.NewEncryptedSSHIdentity(signer.PublicKey(), p.EdEncPEM[r.Idx], func() ([]byte, error) { return []byte(hx.SSHPassphrase), nil })
